@@ -1,6 +1,9 @@
 import PycsepVerif.Model.ForecastArray
 import PycsepVerif.Properties.C11
 import PycsepVerif.Properties.C15
+import PycsepVerif.Proofs.DecYearMono
+import PycsepVerif.Proofs.ForecastDates
+import PycsepVerif.Proofs.ForecastDatesCal
 /-
   C11, round 4 — `GriddedForecast.scale_to_test_date(test_datetime)` (forecasts.py:257-287) computed by the model from the
   three datetimes (`Model/ForecastArray.lean`, `testDateFraction`: the two comparisons, three `decimal_year` calls — C15's
@@ -11,7 +14,9 @@ import PycsepVerif.Properties.C15
     the call is the identity outside (start, end); inside it is ABSOLUTE (data = base × fraction whatever happened before,
     never a product), idempotent, the fraction depends on the three dates only, is ≥ 0 and weakly increasing in the test
     date; the exact-arithmetic fraction is in (0, 1] when the test day ends inside the period.
-  Not proved (kept as the numerical oracle of the harness, 1e-9): a bound on |float fraction − exact fraction|.
+  Round 5: the distance of the binary64 fraction from the exact one is PROVED (`test_date_fraction_close`: ≤ 2·10^-10 for
+  periods of at least 31 days, `test_date_fraction_close_short`: ≤ 2·10^-9 for periods of at least 2 days; every datetime
+  0001 … 9999, test dates on the last day of the period included), from C15's full-range error bound of `decimal_year`.
 -/
 namespace ForecastFile
 open Soft64 Time
@@ -148,6 +153,93 @@ theorem test_date_fraction_exact_range (start end_ test : Int) (h1 : start < tes
   rcases Int.lt_or_eq_of_le hle with hlt | heq
   · have := decimal_year_exact_strict_mono _ _ hlt; linarith
   · rw [heq]
+
+
+/-! ### the computed fraction is the exact fraction up to rounding -/
+
+/-- general form: a period of at least `m` µs (`m ≥ 2 days`) and any tolerance `ε ≤ 1` with `9·10^-12 ≤ ε · m / (366 days)` -/
+theorem test_date_fraction_close_aux (start end_ test m : Int) (q ε : Rat)
+    (hs : -62135596800000000 ≤ start) (he : end_ + usPerDay < 253402300800000000)
+    (hm : 2 * 86400000000 ≤ m) (hd : start + m ≤ end_) (hε0 : 0 ≤ ε) (hε1 : ε ≤ 1)
+    (hεm : 9 / 1000000000000 ≤ ε * ((m : ℚ) / 31622400000000))
+    (hq : testDateFraction start end_ test = some q) :
+    |q - testDateFractionExact start end_ test| ≤ ε + 1 / 100000000000000 := by
+  unfold testDateFraction at hq
+  split at hq
+  · cases hq
+  · split at hq
+    · cases hq
+    · rename_i h1 h2
+      have h1' : test < end_ := Int.not_le.mp h1
+      have h2' : start < test := Int.not_le.mp h2
+      simp only [Option.some.injEq] at hq
+      subst hq
+      simp only [usPerDay] at he ⊢
+      have eS := decimalYear_err_full start hs (by omega)
+      have eE := decimalYear_err_full end_ (by omega) (by omega)
+      have eT := decimalYear_err_full (test + 86400000000) (by omega) (by omega)
+      -- the exact duration and the exact elapsed part
+      have lD := decimalYearExact_lower start end_ (by omega)
+      have lN := decimalYearExact_lower start (test + 86400000000) (by omega)
+      have hDm : (m : ℚ) / 31622400000000 ≤ decimalYearExact end_ - decimalYearExact start := by
+        have : (m : ℚ) / 31622400000000 ≤ ((end_ - start : Int) : ℚ) / 31622400000000 := by
+          apply div_le_div_of_nonneg_right _ (by norm_num)
+          exact_mod_cast (by omega : m ≤ end_ - start)
+        linarith
+      have hm' : (2 * 86400000000 : ℚ) / 31622400000000 ≤ (m : ℚ) / 31622400000000 := by
+        apply div_le_div_of_nonneg_right _ (by norm_num)
+        exact_mod_cast hm
+      have hN1 : (86400000000 : ℚ) / 31622400000000 ≤ decimalYearExact (test + 86400000000) - decimalYearExact start := by
+        have : (86400000000 : ℚ) / 31622400000000 ≤ ((test + 86400000000 - start : Int) : ℚ) / 31622400000000 := by
+          apply div_le_div_of_nonneg_right _ (by norm_num)
+          exact_mod_cast (by omega : (86400000000 : Int) ≤ test + 86400000000 - start)
+        linarith
+      -- the elapsed part is at most the duration plus one day of the shortest year
+      have hTE : decimalYearExact (test + 86400000000) - decimalYearExact end_ ≤ (86400000000 : ℚ) / 31536000000000 := by
+        by_cases hc : end_ ≤ test + 86400000000
+        · have u := decimalYearExact_upper end_ (test + 86400000000) hc
+          have : ((test + 86400000000 - end_ : Int) : ℚ) / 31536000000000 ≤ (86400000000 : ℚ) / 31536000000000 := by
+            apply div_le_div_of_nonneg_right _ (by norm_num)
+            exact_mod_cast (by omega : test + 86400000000 - end_ ≤ (86400000000 : Int))
+          linarith
+        · have l := decimalYearExact_lower (test + 86400000000) end_ (by omega)
+          have : (0 : ℚ) ≤ ((end_ - (test + 86400000000) : Int) : ℚ) / 31622400000000 := by
+            apply div_nonneg _ (by norm_num)
+            exact_mod_cast (by omega : (0 : Int) ≤ end_ - (test + 86400000000))
+          have : (0 : ℚ) ≤ (86400000000 : ℚ) / 31536000000000 := by norm_num
+          linarith
+      have c1 : (9 : ℚ) / 1000000000000 ≤ (86400000000 : ℚ) / 31622400000000 := by norm_num
+      have c2 : (86400000000 : ℚ) / 31536000000000 ≤ (2 * 86400000000 : ℚ) / 31622400000000 := by norm_num
+      unfold testDateFractionExact
+      simp only [usPerDay]
+      apply quotient_close _ _ _ _ _ _ ε eS eE eT (by linarith) (by linarith) (by linarith) hε0 hε1
+      calc (9 : ℚ) / 1000000000000 ≤ ε * ((m : ℚ) / 31622400000000) := hεm
+        _ ≤ ε * (decimalYearExact end_ - decimalYearExact start) := mul_le_mul_of_nonneg_left hDm hε0
+
+/-- **C11, the test-date fraction is right to 2·10^-10** for every forecast period of at least 31 days and every test date
+    inside it (the last day included), all datetimes 0001 … 9999: the binary64 value `scale_to_test_date` hands to `scale`
+    differs from the exact part of the period elapsed at the end of the test day by at most 2·10^-10. -/
+theorem test_date_fraction_close (start end_ test : Int) (q : Rat)
+    (hs : -62135596800000000 ≤ start) (he : end_ + usPerDay < 253402300800000000)
+    (hd : start + 31 * 86400000000 ≤ end_) (hq : testDateFraction start end_ test = some q) :
+    |q - testDateFractionExact start end_ test| ≤ 2 / 10000000000 := by
+  have := test_date_fraction_close_aux start end_ test (31 * 86400000000) q (11 / 100000000000) hs he (by norm_num) hd
+    (by norm_num) (by norm_num) (by norm_num) hq
+  linarith
+
+/-- … and to 2·10^-9 for every period of at least 2 days -/
+theorem test_date_fraction_close_short (start end_ test : Int) (q : Rat)
+    (hs : -62135596800000000 ≤ start) (he : end_ + usPerDay < 253402300800000000)
+    (hd : start + 2 * 86400000000 ≤ end_) (hq : testDateFraction start end_ test = some q) :
+    |q - testDateFractionExact start end_ test| ≤ 2 / 1000000000 := by
+  have := test_date_fraction_close_aux start end_ test (2 * 86400000000) q (17 / 10000000000) hs he (by norm_num) hd
+    (by norm_num) (by norm_num) (by norm_num) hq
+  linarith
+
+example : |(68531204197 / 137438953472 : ℚ) - testDateFractionExact 1262304000000000 1293840000000000 1277942400000000|
+    ≤ 2 / 10000000000 :=
+  test_date_fraction_close 1262304000000000 1293840000000000 1277942400000000 _ (by decide) (by decide) (by decide)
+    (by decide +kernel)
 
 /-! ### non-vacuity: the period 2010-01-01 … 2011-01-01, test date 2010-07-01 (kernel-evaluated binary64 arithmetic) -/
 
